@@ -2,16 +2,16 @@
 
 package debugger
 
-// Verification-harness accessors (only with -tags verif). They are meant to
-// be called from inside the debugger machine (Machine.Eval), like the
-// handlers that own this data.
+// Verification-harness accessors (only with -tags verif).
 
-// VerifExport runs the export the dialog's Save button runs.
+// VerifExport runs the export the dialog's Save button runs. Like the button,
+// it has to be called from outside the machine's queue (the export reads the
+// cursor through an Eval of its own).
 func (d *Debugger) VerifExport(filename string, snapshot bool) {
 	d.hExportData(filename, snapshot)
 }
 
-// VerifFilterTx reports whether transition idx of the selected client passes
+// VerifFilterTx (call inside Machine.Eval) reports whether transition idx of the selected client passes
 // the currently active filters (the predicate behind MsgTxsFiltered).
 func (d *Debugger) VerifFilterTx(idx int) bool {
 	return d.hFilterTx(d.C, idx, d.filtersFromStates())
